@@ -244,7 +244,7 @@ def run_history(ctx, w, ops, case_id):
             offered |= {r.as_hashedid8() for r in roots}
             ls = sc.new_station_lines(A, 1, roots, aas, ats)
             lines += ls
-            reals += [None] * (len(ls) - 1) + ["ok " + A.dump_store(st.lib)]
+            reals += [None] * (len(ls) - 1) + (["ok " + A.dump_store(st.lib)] if len(ls) > 1 else [None])
         elif kind in ("addroot", "addaa", "addat", "addown"):
             obj = op[1]
             fn = {"addroot": st.lib.add_root_certificate, "addaa": st.lib.add_authorization_authority,
@@ -499,8 +499,8 @@ def run(ctx):
             ctx.violation(f"{name}: {b}", c)
         ctx.cover("corpus_cases")
     with rs.VClock(T0), rs.quiet():
-        worlds = ctx.scale(1, 12)
-        per = ctx.scale(130, 1200)
+        worlds = ctx.scale(1, 6)
+        per = ctx.scale(130, 500)
         for wi in range(worlds):
             try:
                 w = World(ctx.rng)
@@ -509,7 +509,7 @@ def run(ctx):
                               f"raised {type(e).__name__}: {e}", {"witness": "noapp"})
                 break
             check_histories(ctx, w, per, 25, f"w{wi}h")
-        check_issuing(ctx, ctx.scale(300, 6000))
+        check_issuing(ctx, ctx.scale(300, 5000))
 
 
 def search(ctx):
@@ -519,8 +519,8 @@ def search(ctx):
         with rs.VClock(T0), rs.quiet():
             for wi in range(3):
                 w = World(ctx.rng)
-                check_histories(ctx, w, ctx.scale(130, 1200), 25, f"s{wi}h")
-            check_issuing(ctx, ctx.scale(900, 18000))
+                check_histories(ctx, w, ctx.scale(130, 400), 25, f"s{wi}h")
+            check_issuing(ctx, ctx.scale(900, 6000))
     finally:
         ctx.model_ok = ok
 
